@@ -13,7 +13,8 @@
 (* a rectangle grows it, a deletion shrinks it (Numbers' behaviour).       *)
 (***************************************************************************)
 EXTENDS Integers, Sequences, FiniteSets, TLC
-CONSTANTS InitR, InitC, MaxR, MaxC, Vals, D, OpsOn, RectSets
+CONSTANTS InitR, InitC, MaxR, MaxC, Vals, D, OpsOn, RectSets,
+          Defs        \* defaults that add_row / add_column may be given (E = none)
 VARIABLES grid, merges, disk, hist
 vars == <<grid, merges, disk, hist>>
 E == "e"
@@ -95,8 +96,8 @@ InitGrid == [i \in 1..InitR |-> [j \in 1..InitC |-> IF (i + j) % 2 = 0 THEN "a" 
 Init == grid = InitGrid /\ merges = {} /\ disk = <<>> /\ hist = <<>>
 Next == \/ "merge" \in OpsOn /\ \E rs \in RectSets : Merge(rs)
         \/ "write" \in OpsOn /\ \E r \in 1..MaxR, c \in 1..MaxC, v \in Vals : Write(r, c, v)
-        \/ "addrow" \in OpsOn /\ \E a \in 1..(MaxR + 1), d \in {E} \cup Vals : AddRow(1, a, d)
-        \/ "addcol" \in OpsOn /\ \E a \in 1..(MaxC + 1), d \in {E} \cup Vals : AddCol(1, a, d)
+        \/ "addrow" \in OpsOn /\ \E a \in 1..(MaxR + 1), d \in Defs : AddRow(1, a, d)
+        \/ "addcol" \in OpsOn /\ \E a \in 1..(MaxC + 1), d \in Defs : AddCol(1, a, d)
         \/ "delrow" \in OpsOn /\ \E a \in 1..MaxR : DelRow(1, a)
         \/ "delcol" \in OpsOn /\ \E a \in 1..MaxC : DelCol(1, a)
         \/ "save" \in OpsOn /\ Save
